@@ -69,6 +69,12 @@ def cases():
                 params = reserved if single else "x, " + reserved
                 add("param_{}/{}/{}".format(reserved, dname, kind), {"D": dexpr}, kind, params, ["D"], "1" if single else "1, 2",
                     ("decorate", "TypeError"), "reserved_parameter")
+            if not single:
+                # keyword-only and defaulted forms of the reserved parameter
+                for form, call in (("x, *, {}=None".format(reserved), "1"), ("x, *rest, {}".format(reserved), "1, {}=2".format(reserved)),
+                                   ("x, {}=None".format(reserved), "1"), ("{}, /, x".format(reserved), "1, 2")):
+                    add("param_{}_form/{}/{}".format(reserved, form.replace(" ", ""), kind), {"D": "icontract.require(cond_true)"}, kind, form, ["D"], call,
+                        ("decorate", "TypeError"), "reserved_parameter")
         # 2. keyword argument named _ARGS / _KWARGS at the call
         if kind != "pset":
             for reserved in ("_ARGS", "_KWARGS"):
